@@ -10,6 +10,8 @@ VERIF_SEED (images come from `Rng(<constant>)`), they enumerate the input classe
   output) -> re-uses `case_history`;
 * `altshape`: one module, calls alternating between image pairs of different shapes (H x W, W x H, same pixel count /
   same first axis / same second axis), `max_shift` set (a mask per shape), both estimators;
+* `subrep`: one shape and factor, the SUB-PIXEL translation changes between calls and returns to an earlier value (bound 1/up per call
+  + equality with a freshly loaded module);
 * `phase`: the third estimator of the anchored files, tomography.utils.torch_phase_cross_correlation, against
   `Registration.phaseCorr` (driver op `phase`, exact) + the integer-shift predicate;
 * `users2`: the users of the estimators with sign-asymmetric inputs: direct_ptycho_utils.align_vbf_stack_multiscale
@@ -83,6 +85,12 @@ def fixed_cases():
         for fam, up, ms in (("np", 1, 3.5), ("np", 4, 3.5), ("np", 3, None), ("torch", 2, None), ("torch", 4, None)):
             out.append({"stream": "g6-altshape", "shapes": [list(s) for s in shapes], "fam": fam, "up": up, "max_shift": ms,
                         "seed": 30 + i, "order": [0, 1, 0, 2 % len(shapes), 1, 0, 0, 1]})
+    # ---- same shape, same factor, the sub-pixel translation changes between calls (and comes back): anything remembered from the
+    #      previous call (kernels, ramps, peak positions) must not leak into the next one
+    for i, (M, N) in enumerate([(9, 12), (12, 9), (10, 10)]):
+        for fam, up in (("np", 4), ("np", 8), ("np", 16), ("torch", 4), ("torch", 8)):
+            out.append({"stream": "g6-subrep", "M": M, "N": N, "sub": 600 + i, "fam": fam, "up": up,
+                        "ts": [[0.2, -0.3], [0.45, -0.05], [-0.3, 0.2], [0.2, -0.3], [1.2, -0.3], [0.0, 0.0], [0.45, -0.05]]})
     # ---- torch_phase_cross_correlation
     for si, (M, N) in enumerate(SHAPES + [(4, 6), (3, 3)]):
         img = _img(40 + si, M, N)
@@ -141,6 +149,41 @@ def case_altshape(ctx, case):
     ctx.sample(case, limit=2)
 
 
+def case_subrep(ctx, case):
+    """one band-limited image, one shape, one factor; a sequence of calls whose sub-pixel translation changes: each call is held to
+    the property's bound (1/upsample_factor) and to the result of a freshly loaded module on the same inputs"""
+    import torch
+    from qv.prng import Rng
+    from props import c13_ext as X
+    B = _B()
+    iu = B._iu()
+    M, N, up, fam = case["M"], case["N"], case["up"], case["fam"]
+    coefs = B.gen_coefs(Rng(case["sub"]), M, N)
+    ref = B.synth(coefs, M, N)
+    ctx.count()
+    ctx.dist[f"g6-subrep:{fam},up={up}"] += 1
+    for step, t in enumerate(case["ts"]):
+        fresh = X.fresh_iu()      # a new copy per call: no state of its own either
+        im = B.synth(coefs, M, N, t)
+        c = dict(case, failing_call=step)
+        if fam == "np":
+            with np.errstate(all="ignore"):
+                o = np.asarray(iu.cross_correlation_shift(ref.copy(), im.copy(), upsample_factor=up), dtype=float)
+                f = np.asarray(fresh.cross_correlation_shift(ref.copy(), im.copy(), upsample_factor=up), dtype=float)
+            tol = B.TOL64
+        else:
+            o = np.asarray(iu.cross_correlation_shift_torch(torch.tensor(ref), torch.tensor(im), upsample_factor=up).numpy(), dtype=float)
+            f = np.asarray(fresh.cross_correlation_shift_torch(torch.tensor(ref), torch.tensor(im), upsample_factor=up).numpy(), dtype=float)
+            tol = B.TOL32
+        B.pred_subpixel(ctx, c, f"{fam}-subrep" if fam != "np" else "np", o, M, N, t, up)
+        okF, dF = B.cmp_shift(o, f, M, N, tol)
+        if not okF:
+            ctx.disagree(f"g6-subrep-{fam}-vs-fresh-module", c, {"shift": [float(v) for v in f]}, {"shift": [float(v) for v in o]},
+                         note="a call differs from the same call on a freshly loaded copy of imaging_utils.py (state carried between calls)")
+    ctx.mark(("g6-subrep", fam, up, B.shape_sig(M, N)))
+    ctx.sample(case, limit=1)
+
+
 def _tomo_utils():
     from quantem.tomography import utils as tu
     return tu
@@ -187,6 +230,11 @@ def case_phase(ctx, drv, case):
         ctx.pred_fail("torch-phase-identical" if ident else "torch-phase-integer-shift",
                       "torch_phase_cross_correlation does not return the applied integer translation (negated: shift that maps the second image onto the first)",
                       case, observed=[float(v) for v in obs], required=[exp[0], exp[1]])
+    # swapping the two images negates the result (modulo the cell: the tie dim/2 is its own negative)
+    rs = np.asarray(fn(tb, ta).detach().cpu().numpy(), dtype=float).ravel()
+    if obs.size == 2 and not (rs.size == 2 and B.mod_dist(rs[0], -obs[0], M) == 0 and B.mod_dist(rs[1], -obs[1], N) == 0):
+        ctx.pred_fail("torch-phase-swap", "swapping the two images does not negate the result of torch_phase_cross_correlation", case,
+                      observed={"ab": [float(v) for v in obs], "ba": [float(v) for v in rs]}, required="ab == -ba (mod shape)")
     ctx.mark(("g6-phase", B.shape_sig(M, N), B.shift_class(t, M, N), case["tdtype"]))
     ctx.sample(case, limit=2)
 
@@ -260,6 +308,8 @@ def run_case(ctx, drv, case):
     s = case["stream"]
     if s == "g6-altshape":
         case_altshape(ctx, case)
+    elif s == "g6-subrep":
+        case_subrep(ctx, case)
     elif s == "g6-phase":
         case_phase(ctx, drv, case)
     elif s == "g6-users":
